@@ -87,6 +87,9 @@ type Fault struct {
 	Path string `json:"path"`
 	N    int    `json:"n"`
 	Err  string `json:"err"` // "perm", "io", "notexist"
+	// Sticky makes every invocation from the N-th on fail (a persistently broken
+	// directory or file), not only the N-th.
+	Sticky bool `json:"sticky,omitempty"`
 }
 
 // Op is one logged operation.
@@ -193,7 +196,7 @@ func (f *FS) op(site, p string) error {
 	f.counts[key] = n + 1
 	var err error
 	for _, ft := range f.opt.Faults {
-		if ft.Site == site && ft.Path == p && ft.N == n {
+		if ft.Site == site && ft.Path == p && (ft.N == n || (ft.Sticky && n > ft.N)) {
 			err = &fs.PathError{Op: site, Path: p, Err: mkErr(ft.Err)}
 			break
 		}
